@@ -177,6 +177,8 @@ def bp_spec(draw, max_rings=3, tier="quick", allow_int_ids=False):
     for b in spec["blocks"]:
         # pin `grid contents` written with bare integers (1 instead of '1'); only drawn while that shape is searched
         b["gridIntIds"] = bool(allow_int_ids and draw(st.booleans()))
+        if b["gridIntIds"] and b.get("grid"):
+            b["gridRoute"] = "contents"  # (only explicit contents can carry integers; map tokens are always text)
     n_designs = draw(st.sampled_from([2, 3, 2, 3, 1]))
     shared_heights = [round(draw(st.floats(5.0, 60.0)), 3) for _ in range(4)]
     spec["sharedHeights"] = shared_heights
